@@ -216,7 +216,12 @@ def run_history(rng, nops, via_prepared):
                 sql, term, label, new = gen_stmt(rng, cur)
                 stmts.append((sql, term, label, cur))
                 cur = new
-            text = "; ".join(s[0] for s in stmts)
+            # statements separated by ';' - with or without white space, with a comment behind it -, the text ending in
+            # nothing, a ';', or a ';' followed by a comment (what mysqldump and hand-written scripts send): a comment is
+            # no statement
+            seps = ["; ", "; ", "; ", ";", " ;\n", "; /* c */ ", ";\n-- note\n"]
+            text = stmts[0][0] + "".join(rng.choice(seps) + s[0] for s in stmts[1:])
+            text += rng.choice(["", "", "", "", ";", "; -- done", "; /* c */", " ; # c", ";\n"])
             attrs = {"k": str(rng.randint(0, 99))}
             del log[:]
             attr = pk.P(b"k", pk.T_VAR_STRING, False, attrs["k"].encode())
